@@ -823,9 +823,11 @@ impl Runner {
                     } else {
                         catch_unwind(AssertUnwindSafe(move || drop(s)))
                     };
-                    gate::set_lock_probe(None);
                     let alive = gate::current_worker_alive();
                     gate::SLOW_EXTRA_MS.store(0, std::sync::atomic::Ordering::SeqCst);
+                    if !alive {
+                        gate::set_lock_probe(None);
+                    }
                     self.flush_events();
                     if r.is_err() {
                         self.emit("drop panic");
@@ -834,7 +836,10 @@ impl Runner {
                         // the store is gone but its worker is not: everything it
                         // still does is reported after `dropped`
                         self.emit("dropped worker-still-alive");
+                        // the probe stays on: whatever the orphaned worker still does is checked
+                        // against the directory lock its owner has just released
                         gate::wait_all_exited(self.timeout);
+                        gate::set_lock_probe(None);
                         self.flush_events();
                     } else {
                         self.emit("dropped");
